@@ -83,7 +83,14 @@ fn main() {
     //  or at most 1 / 2 bytes per call)
     let short = toks.len() % 3;
     let sh = Arc::new(Shared { m: Mutex::new(G { log: Vec::new(), permits: VecDeque::new(), short, cur: Vec::new() }), cv: Condvar::new() });
-    let (nb, guard) = NonBlockingBuilder::default().buffered_lines_limit(cap).lossy(lossy).finish(Gated(sh.clone()));
+    // the builder's options in either order, with or without a name for the worker thread (a function of the script)
+    let b = match toks.len() % 4 {
+        0 => NonBlockingBuilder::default().buffered_lines_limit(cap).lossy(lossy),
+        1 => NonBlockingBuilder::default().lossy(lossy).buffered_lines_limit(cap).thread_name("tv-worker"),
+        2 => NonBlockingBuilder::default().thread_name("tv-worker").buffered_lines_limit(cap).lossy(lossy),
+        _ => NonBlockingBuilder::default().buffered_lines_limit(cap).thread_name("tv-worker").lossy(lossy),
+    };
+    let (nb, guard) = b.finish(Gated(sh.clone()));
     let counter = nb.error_counter();
     let mut guard = Some(guard);
     let mut drop_thread: Option<std::thread::JoinHandle<()>> = None;
